@@ -20,6 +20,7 @@
 #include "Matrix/MatrixSparse.hpp"
 #include "Matrix/MatrixFactory.hpp"
 #include "Matrix/NF_Triplet.hpp"
+#include "Matrix/LinkMatrixSparse.hpp"
 #include "LinearOp/CholeskyDense.hpp"
 #include "LinearOp/CholeskySparse.hpp"
 #include "Basic/VectorNumT.hpp"
@@ -973,7 +974,8 @@ static void report(const char* kind, const Node& n, const Node* pre, int p, cons
   rec["observed"] = observed;
   if (!note.empty()) rec["note"] = Value(note);
   // symptom: the observed matrix has lost trailing empty rows / columns (dimension = extent of the non-zero terms)
-  if (observed.kind == Value::Obj && observed.has("A") && observed.at("A").kind == Value::Arr)
+  if (what.find("(storage dimensions)") != std::string::npos) rec["symptom"] = Value("storage-dimensions");
+  else if (observed.kind == Value::Obj && observed.has(what == "B" ? "B" : "A") && observed.at(what == "B" ? "B" : "A").kind == Value::Arr)
   {
     const QMat& e = (what == "B") ? n.B : n.A;
     const Value& oa = observed.at(what == "B" ? "B" : "A");
@@ -1053,11 +1055,27 @@ static void runRoute(const Route& rt, Regs& g, Outcome& out)
   out.errtext = g_lasterr;
 }
 
+// the storage of a matrix (Eigen dense / Eigen sparse / cs) must have the dimensions the object announces:
+// otherwise every reading is an access outside the storage (undefined values)
+static bool storageConsistent(const AMatrix* a)
+{
+  const AMatrixDense* d = dynamic_cast<const AMatrixDense*>(a);
+  if (d != nullptr) return d->getTab()->rows() == a->getNRows() && d->getTab()->cols() == a->getNCols();
+  const MatrixSparse* s = dynamic_cast<const MatrixSparse*>(a);
+  if (s == nullptr) return true;
+  if (s->isFlagEigen()) return s->getEigenMatrix().rows() == a->getNRows() && s->getEigenMatrix().cols() == a->getNCols();
+  const cs* c = s->getCS();
+  if (c == nullptr) return false;
+  return cs_get_nrow(c) == a->getNRows() && cs_get_ncol(c) == a->getNCols();
+}
+
 static Value regsObserved(const Regs& g)
 {
   Value o = Value::object();
-  try { o["A"] = dmatJson(readBack(g.A)); } catch (...) { o["A"] = Value("unreadable"); }
-  try { o["B"] = dmatJson(readBack(g.B)); } catch (...) { o["B"] = Value("unreadable"); }
+  if (!storageConsistent(g.A)) o["A"] = Value("storage dimensions differ from getNRows() x getNCols()");
+  else try { o["A"] = dmatJson(readBack(g.A)); } catch (...) { o["A"] = Value("unreadable"); }
+  if (!storageConsistent(g.B)) o["B"] = Value("storage dimensions differ from getNRows() x getNCols()");
+  else try { o["B"] = dmatJson(readBack(g.B)); } catch (...) { o["B"] = Value("unreadable"); }
   o["v"] = dvecJson(toStd(g.v));
   return o;
 }
@@ -1072,6 +1090,8 @@ static Value regsExpected(const Node& n)
 // that differs ("" when all agree)
 static std::string compareRegs(const Regs& g, const Node& n, bool exact)
 {
+  if (g.A->getNRows() == n.A.r && g.A->getNCols() == n.A.c && !storageConsistent(g.A)) return "A(storage dimensions)";
+  if (g.B->getNRows() == n.B.r && g.B->getNCols() == n.B.c && !storageConsistent(g.B)) return "B(storage dimensions)";
   DMat a = readBack(g.A);
   if (!sameMat(a, n.A, exact)) return "A";
   DMat b = readBack(g.B);
